@@ -55,15 +55,13 @@ def point_mass(rec, cls):
     _inst = _inst_for(pooled)
     q = 'chi._population_models.%s.' % cls
     m = getattr(chi_sym, cls)(n_dim=1)
-    m._n_dim = S(d)
-    m._n_ids = S(N)
-    m._n_parameters = S(d) if pooled else S(N * d)
+    from contracts.families import generalise
+    fields = {'_n_dim': S(d), '_n_ids': S(N), '_n_parameters': S(d) if pooled else S(N * d)}
     if pooled:
-        m._special_dims = [[0, S(d), 0, S(d), True]]
-        m._n_pooled_dims = S(d)
+        fields.update({'_special_dims': [[0, S(d), 0, S(d), True]], '_n_pooled_dims': S(d)})
     else:
-        m._special_dims = [[0, S(d), 0, S(N * d), False]]
-        m._n_hetero_dims = S(d)
+        fields.update({'_special_dims': [[0, S(d), 0, S(N * d), False]], '_n_hetero_dims': S(d)})
+    generalise(m, fields, [('n_dim', S(d)), ('n_parameters', S(d) if pooled else S(N * d))])
     x = T((N, d), lambda i: X[i[0], i[1]])
     u = T((N, d), lambda i: U[i[0], i[1]])
     base = [d >= 1, N >= 1]
